@@ -60,6 +60,7 @@ type Contract struct {
 	Fresh    bool     // results are fresh allocations
 	Bounded  string
 	Instances []Clause
+	Guarantees []Clause // two-state relation on captured variables established by every invocation of a closure
 }
 
 type AssertSpec struct {
@@ -132,7 +133,7 @@ var clauseKeywords = map[string]bool{
 	"pred": true, "spec": true, "lemma": true, "uses": true, "arith": true, "prop": true,
 	"callsite": true, "closure": true, "extern": true, "assert": true, "trusted": true,
 	"inline": true, "noinline": true, "pure": true, "const": true, "opaque": true, "fresh": true,
-	"end": true, "bounded": true, "pattern": true, "base": true, "ghost": true, "instance": true,
+	"end": true, "bounded": true, "pattern": true, "base": true, "ghost": true, "instance": true, "guarantee": true,
 }
 
 type rawClause struct {
@@ -356,6 +357,15 @@ func parseSpecFile(path string, pkgPath string) (*SpecFile, error) {
 				return nil, err
 			}
 			cur.Asserts = append(cur.Asserts, AssertSpec{Before: name, Ord: ord, C: cl})
+		case "guarantee":
+			if cur == nil {
+				return nil, fmt.Errorf("%s:%d: guarantee outside closure", path, rc.line)
+			}
+			cl, err := mk(rc, rc.rest)
+			if err != nil {
+				return nil, err
+			}
+			cur.Guarantees = append(cur.Guarantees, cl)
 		case "instance":
 			if cur == nil {
 				return nil, fmt.Errorf("%s:%d: instance outside func", path, rc.line)
